@@ -3,6 +3,7 @@ package trie2
 import (
 	"errors"
 	"fmt"
+	"math/bits"
 
 	"github.com/NethermindEth/juno/core/crypto"
 	"github.com/NethermindEth/juno/core/felt"
@@ -306,6 +307,12 @@ func (t *Trie) get(n trienode.Node, prefix, key *Path) (*felt.Felt, trienode.Nod
 // Modifies the trie by either inserting/updating a value or deleting a key.
 // The operation is determined by whether the value is zero (delete) or non-zero (insert/update).
 func (t *Trie) update(key, value *felt.Felt) error {
+	// A key is the path of its low `height` bits: a felt with more bits would silently land on the
+	// leaf of another key (the deprecated trie refuses it in Put as well).
+	if keyBitLen(key) > int(t.height) {
+		return fmt.Errorf("key %s exceeds trie height %d", key, t.height)
+	}
+
 	k := trieutils.FeltToPath(key, t.height)
 	if value.IsZero() {
 		n, _, err := t.delete(t.root, new(Path), &k)
@@ -321,6 +328,18 @@ func (t *Trie) update(key, value *felt.Felt) error {
 		t.root = n
 	}
 	return nil
+}
+
+// Number of significant bits of a felt.
+func keyBitLen(key *felt.Felt) int {
+	const wordBits = 64
+	words := key.Bits() // little-endian 64-bit words
+	for i := len(words) - 1; i >= 0; i-- {
+		if words[i] != 0 {
+			return i*wordBits + bits.Len64(words[i])
+		}
+	}
+	return 0
 }
 
 // Inserts a value into the trie. Handles different node types:
